@@ -66,6 +66,14 @@ def optimize_prec_assignment(model: MPS,
 
         # Iterate over the leaf modules and reassign the precisions in each layer, if needed
         target_list = model._unique_leaf_modules if cost_spec.shared else model._leaf_modules
+        # Layers that share a weight quantizer (e.g., a depthwise convolution and its producer)
+        # share the precision of each channel: they are refined together, once
+        sharing = {}
+        for lname, node, layer in target_list:
+            if isinstance(layer, MPSModule) and not isinstance(layer, MPSIdentity) and \
+                    isinstance(layer.w_mps_quantizer, MPSPerChannelQtz):
+                sharing.setdefault(id(layer.w_mps_quantizer), []).append((lname, node, layer))
+        refined = set()
         for lname, node, layer in target_list:
             if isinstance(layer, MPSModule):
                 # Compute the cost of the layer in the original configuration
@@ -81,9 +89,21 @@ def optimize_prec_assignment(model: MPS,
                 else:
                     raise ValueError("Unsupported quantizer type")
 
-                best_cost = copy.deepcopy(base_cost)
                 config_cost = _compute_cost(model, layer, w_theta_alpha_array, cost_fn_map, lname, node)
                 assert config_cost == base_cost, "The cost of the layer is not consistent with the original configuration"
+
+                if id(layer.w_mps_quantizer) in refined:
+                    # already decided together with the first layer sharing this quantizer
+                    continue
+                refined.add(id(layer.w_mps_quantizer))
+                group = sharing[id(layer.w_mps_quantizer)]
+
+                def _group_cost(theta_alpha_array, precisions=None):
+                    return sum(_compute_cost(model, g_layer, theta_alpha_array, cost_fn_map, g_lname, g_node,
+                                             precisions) for g_lname, g_node, g_layer in group)
+
+                base_cost = _group_cost(w_theta_alpha_array)
+                best_cost = copy.deepcopy(base_cost)
 
                 sorted_indexes = torch.argsort(layer.w_mps_quantizer.precision)
                 sorted_precisions = [layer.w_mps_quantizer.precision[i] for i in sorted_indexes]
@@ -104,8 +124,7 @@ def optimize_prec_assignment(model: MPS,
                         for _ in range(int(round(float(w_theta_alpha_array_tmp[i]) * n_ch))):
                             w_theta_alpha_array_tmp[i] -= (1. / layer.w_mps_quantizer.theta_alpha.shape[1])
                             w_theta_alpha_array_tmp[j] += (1. / layer.w_mps_quantizer.theta_alpha.shape[1])
-                            cost_tmp = _compute_cost(model, layer, w_theta_alpha_array_tmp, cost_fn_map, lname, node,
-                                                     sorted_precisions)
+                            cost_tmp = _group_cost(w_theta_alpha_array_tmp, sorted_precisions)
                             if cost_tmp < best_cost:
                                 best_cost = cost_tmp
                                 best_cost_w_theta_alpha_array = copy.deepcopy(w_theta_alpha_array_tmp) # TODO: check sorting!!!
@@ -133,8 +152,7 @@ def optimize_prec_assignment(model: MPS,
                         for _ in range(int(round(float(w_theta_alpha_array_tmp[i]) * n_ch))):
                             w_theta_alpha_array_tmp[i] -= (1. / layer.w_mps_quantizer.theta_alpha.shape[1])
                             w_theta_alpha_array_tmp[j] += (1. / layer.w_mps_quantizer.theta_alpha.shape[1])
-                            cost_tmp = _compute_cost(model, layer, w_theta_alpha_array_tmp, cost_fn_map, lname, node,
-                                                     sorted_precisions)
+                            cost_tmp = _group_cost(w_theta_alpha_array_tmp, sorted_precisions)
                             if cost_tmp < best_cost:
                                 best_cost = cost_tmp
                                 best_cost_w_theta_alpha_array = copy.deepcopy(w_theta_alpha_array_tmp)
